@@ -2,7 +2,7 @@
 # usage: tools/run_all.sh [quick|thorough]  -> one summary line per check
 cd "$(dirname "$0")/.."
 T=${1:-quick}
-for i in 01 02 03 04 05 06 07 08 09 10 11 12 13 14 15 16 17 18 19 20; do
+for i in ${CHECKS:-01 02 03 04 05 06 07 08 09 10 11 12 13 14 15 16 17 18 19 20}; do
   s=$(date +%s); out=$(./check C$i --tier $T 2>&1); code=$?
   echo "C$i exit=$code $(( $(date +%s)-s ))s $(echo "$out" | grep -c '^VIOLATION') violations $(echo "$out" | grep -c '^KNOWN-FINDING') known $(echo "$out" | grep HARNESS-ERROR | head -1 | cut -c1-150)"
 done
